@@ -1,19 +1,30 @@
 import HcipyVerif.Lemmas.Cache
+import HcipyVerif.Lemmas.CacheDecorator
+import HcipyVerif.Lemmas.FftState
 import HcipyVerif.Lemmas.WavelengthKey
 
 /-!
 # C05 — optical elements are history-independent: caching is transparent
 
-Model: `HcipyVerif/Model/Cache.lean` (the instance cache of `AgnosticOpticalElement` after the
-repair `pending_fixes/D3-agnostic-cache-partial-keys.diff`; the unrepaired code is `Cache.Old`).
+Model: `HcipyVerif/Model/Cache.lean` (the instance cache of `AgnosticOpticalElement` as it is in
+/repo) and `HcipyVerif/Model/CacheDecorator.lean` (the second, independent cache inside the exported
+`make_agnostic_optical_element`).  The unrepaired lookup of round 0 is documentation only
+(`Lemmas/CacheOld.lean`, not imported here, not counted).
 
 * `Sound`  — soundness invariant of the cache, `Acc` — accounting invariant (`Lemmas/Cache.lean`).
 * `transparent` — for every element whose declared dependencies are truthful (all shipped ones,
   `truthful_of_declared_deps`), every history of forward / backward / both-grids requests,
   `clear_cache()` calls and setters, of any length and beyond any cache size, answers every request
   exactly as a freshly constructed element with the current parameters would.
-* `old_lens_counterexample` — the unrepaired lookup is not transparent (lens propagator, defect D3).
-* The Fourier objects owned by the instances: memo cells and scratch buffers are transparent.
+* `transparent_results` — the same with instance *contents*: the hypothesis "what an instance
+  returns is a function of (key, parameter version)" is explicit (`ObservablyPure`), and needed
+  (`content_hypothesis_needed`), and discharged for instances that own a memo cell
+  (`memo_content_pure`, `transparent_results_memo`: what driver op `reqc` runs).  `truthful_needed`:
+  so is `Truthful`.
+* `decorator_history_dependent` — `make_agnostic_optical_element` is **not** transparent (open finding);
+  `decorator_forward_transparent` — its forward requests are.
+* The Fourier objects owned by the instances: memo cells (`FourierFilter`, `ChirpZTransform`,
+  `ZoomFastFourierTransform`, MFT) and the scratch buffer (`Fft.loadArray`) are transparent.
 -/
 
 set_option linter.unusedSimpArgs false
@@ -282,35 +293,13 @@ is answered with the instance built for the old parameters. -/
 theorem setter_without_clear_counterexample :
     let e : Elem := ⟨true, true, 11, fun _ _ g => some g, fun _ _ g => some g⟩
     let s1 := (step e (St.init 0) (.req (some 1) none (some 5))).1
-    (step e s1.setParamNoClear (.req (some 1) none (some 5))).2 = .inst ⟨some 1, some 1, some 5⟩ 0 ∧
+    (step e (Mutant.setParamNoClear s1) (.req (some 1) none (some 5))).2 = .inst ⟨some 1, some 1, some 5⟩ 0 ∧
     (step e (St.init 1) (.req (some 1) none (some 5))).2 = .inst ⟨some 1, some 1, some 5⟩ 1 := by
   decide
 
-/-! ## The unrepaired code (defect D3) -/
+/-! ## The lens-propagator history of defect D3 (the unrepaired lookup is in `Lemmas/CacheOld.lean`) -/
 
-/-- On the unrepaired lookup the lens propagator (fixed pupil grid 1, focal grid 9) used forward on
-pupil grid 1 and then on pupil grid 2 hands out, for the second call, the instance made for
-grid 1 (through the partial key `(None, hash(focal), wl)`), whereas a fresh element builds the one
-for grid 2. -/
-theorem old_lens_counterexample :
-    Old.hist2 = some (⟨some 1, some 9, some 5, 0⟩, ⟨some 2, some 9, some 5, 0⟩) := by decide
-
-/-- The unrepaired two-stage lookup was transparent only in part: for *forward* requests on
-elements that are grid- and wavelength-dependent and *consistent* (`get_input_grid` and
-`get_output_grid` total and mutually inverse — every shipped element except the lens propagator),
-starting from a sound cache.  Gap to the property: backward and both-grid requests, and
-inconsistent elements (for which `old_lens_counterexample` shows it false). -/
-theorem old_forward_transparent_partial (e : Old.Elem) (hc : Old.Consistent e) (s s' : Old.St)
-    (hs : Old.Sound e s) (a : GridId) (k : WlKey) (v : Old.Inst)
-    (h : Old.getInstanceData e s (some a) none (some k) = some (s', v)) :
-    v = Old.fresh e s.ver (some a) none (some k) ∧ Old.Sound e s' :=
-  Old.forward_transparent e hc s s' hs a k v h
-
-example : Old.Consistent ⟨true, true, 11, fun g => some g, fun g => some g⟩ :=
-  ⟨rfl, rfl, fun a b h => by simp at h; simp [h], fun a b h => by simp at h; simp [h],
-    fun a => ⟨a, rfl⟩, fun b => ⟨b, rfl⟩⟩
-
-/-- The repaired lookup answers the same history correctly. -/
+/-- The lookup now in /repo answers the history that exposed D3 correctly. -/
 theorem lens_history_repaired :
     let e : Elem := ⟨true, true, 11, fun _ _ _ => some 1, fun _ _ _ => some 9⟩
     run e (St.init 0) [.req (some 1) none (some 5), .req (some 2) none (some 5)]
@@ -473,19 +462,320 @@ theorem memo_history_transparent {τ α} [DecidableEq τ] (compute : τ → α) 
 /-- The mutant "matrices not rebuilt on dtype change" is not transparent. -/
 theorem memo_stale_counterexample :
     let compute : Bool → Nat := fun b => if b then 64 else 128
-    let m1 := (Memo.getStale compute ⟨none⟩ true).1
-    (Memo.getStale compute m1 false).2 = 64 ∧ compute false = 128 := by decide
+    let m1 := (Mutant.memoGetStale compute ⟨none⟩ true).1
+    (Mutant.memoGetStale compute m1 false).2 = 64 ∧ compute false = 128 := by decide
 
-/-- **Scratch buffers are transparent**: the zero-padded internal array that is transformed does
-not depend on what the buffer held before (every read is preceded by a full write). -/
-theorem padInto_independent {K} [OfNat K 0] (buf buf' : List K) (h : buf.length = buf'.length)
-    (start : Nat) (x : List K) : padInto buf start x = padInto buf' start x := by
-  unfold padInto
-  rw [h]
+/-- **Scratch buffers are transparent** (`FastFourierTransform.internal_array`,
+`FourierFilter.internal_array`): what `forward`/`backward` hand to the FFT — `Fft.loadArray`, the very
+definition C01's `coreState` reads and that the driver op `C05 load` runs against the array the real
+code passes to `fftn` — does not depend on what the buffer held before.  (Replaces the round-1
+`padInto_independent`, which was true by construction.) -/
+theorem scratch_load_independent {C : Type} [CommRing C] (N M : ℕ) (hNM : N ≤ M)
+    (buf buf' f : ℕ → C) (p : ℕ) (hp : p < M) :
+    Fft.loadArray N M buf f p = Fft.loadArray N M buf' f p := by
+  rw [Fft.loadArray_eq_pad N M hNM buf f p hp, Fft.loadArray_eq_pad N M hNM buf' f p hp]
 
-/-- The mutant "`internal_array` not re-zeroed" depends on the previous call. -/
-theorem padInto_stale_counterexample :
-    padIntoStale [7, 7, 7, 7] 1 [1, 2] = [7, 1, 2, 7] ∧ padInto [7, 7, 7, 7] 1 [1, 2] = ([0, 1, 2, 0] : List Int) := by
+example : (3 : ℕ) ≤ 6 ∧ (4 : ℕ) < 6 := by decide
+
+/-- The mutant "`internal_array` not re-zeroed" (`Fft.loadArrayNoClear`) depends on the previous call:
+a position outside the window keeps the old content. -/
+theorem scratch_load_noclear_counterexample :
+    Fft.loadArrayNoClear 2 4 (fun _ => (7 : ℤ)) (fun _ => 1) 0 = 7 ∧
+    Fft.loadArrayNoClear 2 4 (fun _ => (0 : ℤ)) (fun _ => 1) 0 = 0 ∧
+    Fft.loadArray 2 4 (fun _ => (7 : ℤ)) (fun _ => 1) 0 = 0 := by
+  decide
+
+/-! ### `ZoomFastFourierTransform` (a memo cell owning `ChirpZTransform` memo cells) -/
+
+/-- Both chirp-z cells of a zoom FFT are well formed. -/
+def ZoomOk {α} (compute : Nat → α) (z : Zoom α) : Prop := MemoOk compute z.czt ∧ MemoOk compute z.inv
+
+example : ZoomOk (fun n => n + 1) (Zoom.fresh : Zoom Nat) :=
+  And.intro (fun t v h => by simp [Zoom.fresh] at h) (fun t v h => by simp [Zoom.fresh] at h)
+
+/-- **The zoom FFT is transparent**: whatever precisions and directions were used before, a call
+uses the kernels computed for its own precision — what a freshly constructed object computes. -/
+theorem zoom_call_transparent {α} (compute : Nat → α) (z : Zoom α) (hz : ZoomOk compute z)
+    (back : Bool) (t : Nat) :
+    (z.call compute back t).2 = compute t ∧ (z.call compute back t).2 = ((Zoom.fresh).call compute back t).2 ∧
+      ZoomOk compute (z.call compute back t).1 := by
+  have hnone : MemoOk compute (⟨none⟩ : Memo Nat α) := fun t v h => by cases h
+  have key : ∀ z : Zoom α, ZoomOk compute z →
+      (z.call compute back t).2 = compute t ∧ ZoomOk compute (z.call compute back t).1 := by
+    intro z hz
+    unfold Zoom.call
+    have hz1 : ZoomOk compute (if z.tag = some t then z else ⟨some t, ⟨none⟩, ⟨none⟩⟩) := by
+      split
+      · exact hz
+      · exact ⟨hnone, hnone⟩
+    generalize (if z.tag = some t then z else (⟨some t, ⟨none⟩, ⟨none⟩⟩ : Zoom α)) = z1 at hz1
+    cases back with
+    | true =>
+      obtain ⟨hv, hok⟩ := memo_get_transparent compute z1.inv hz1.2 t
+      exact ⟨hv, hz1.1, hok⟩
+    | false =>
+      obtain ⟨hv, hok⟩ := memo_get_transparent compute z1.czt hz1.1 t
+      exact ⟨hv, hok, hz1.2⟩
+  obtain ⟨h1, h2⟩ := key z hz
+  obtain ⟨h3, _⟩ := key Zoom.fresh ⟨hnone, hnone⟩
+  exact ⟨h1, h1.trans h3.symm, h2⟩
+
+/-- Histories of zoom-FFT calls (alternating directions and precisions). -/
+theorem zoom_history_transparent {α} (compute : Nat → α) (calls : List (Bool × Nat)) :
+    runObj (fun (z : Zoom α) (c : Bool × Nat) => z.call compute c.1 c.2) Zoom.fresh calls
+      = calls.map (fun c => compute c.2) := by
+  have hnone : MemoOk compute (⟨none⟩ : Memo Nat α) := fun t v h => by cases h
+  rw [hidden_state_history_transparent (fun (z : Zoom α) (c : Bool × Nat) => z.call compute c.1 c.2)
+    (ZoomOk compute) Zoom.fresh
+    (fun z c hz => ⟨(zoom_call_transparent compute z hz c.1 c.2).2.2,
+      (zoom_call_transparent compute z hz c.1 c.2).2.1⟩) calls Zoom.fresh ⟨hnone, hnone⟩]
+  apply List.map_congr_left
+  intro c _
+  exact (zoom_call_transparent compute Zoom.fresh ⟨hnone, hnone⟩ c.1 c.2).1
+
+/-! ## Instance contents: the abstraction "an instance is its (key, version)" as a hypothesis -/
+
+/-- **Hypothesis `ObservablyPure`**: there is an invariant `Good k ver` of instance contents such that
+`make_instance` establishes it, every use keeps it, and under it a use returns what the freshly made
+content returns.  ("`make_instance` is deterministic in (full key, current parameters) and using an
+instance does not change it observably.") -/
+def ObservablyPure {α W R} (c : Content α W R) (Good : Key → Nat → α → Prop) : Prop :=
+  (∀ k ver, Good k ver (c.make k ver)) ∧
+  ∀ k ver a wf, Good k ver a → Good k ver (c.use a wf).1 ∧ (c.use a wf).2 = (c.use (c.make k ver) wf).2
+
+/-- Satisfiable: contents that are never modified. -/
+example : ObservablyPure (⟨fun k ver => (k, ver), fun a (wf : Nat) => (a, (a, wf))⟩ :
+    Content (Key × Nat) Nat ((Key × Nat) × Nat)) (fun k ver a => a = (k, ver)) :=
+  ⟨fun _ _ => rfl, fun k ver a wf h => by subst h; exact ⟨rfl, rfl⟩⟩
+
+/-- Invariant of the content of an instance that owns a memo cell (`memoContent`): it belongs to the
+instance `(k, ver)` and its cell is well formed. -/
+def MemoContentOk {τ β : Type} (compute : Key → Nat → τ → β) (k : Key) (ver : Nat)
+    (a : Key × Nat × Memo τ β) : Prop :=
+  a.1 = k ∧ a.2.1 = ver ∧ MemoOk (compute k ver) a.2.2
+
+/-- **Bridge: memo cells discharge `ObservablyPure`.**  The content the driver op `reqc` executes
+(`memoContent`: an instance owning a `FourierFilter`-like cell read through `Memo.get`) is observably
+pure, with `MemoContentOk` as invariant. -/
+theorem memo_content_pure {τ β : Type} [DecidableEq τ] (compute : Key → Nat → τ → β) :
+    ObservablyPure (memoContent compute) (MemoContentOk compute) := by
+  refine ⟨fun k ver => ⟨rfl, rfl, fun t v h => by cases h⟩, ?_⟩
+  rintro k ver ⟨k', ver', m⟩ t ⟨rfl, rfl, hm⟩
+  obtain ⟨h1, h2⟩ := memo_get_transparent (compute k' ver') m hm t
+  refine ⟨⟨rfl, rfl, h2⟩, ?_⟩
+  show (m.get (compute k' ver') t).2 = ((⟨none⟩ : Memo τ β).get (compute k' ver') t).2
+  rw [h1]; rfl
+
+theorem stepC_state {α W R} (e : Elem) (c : Content α W R) (s : St) (heap : Inst → α) (op : OpC W) :
+    (stepC e c s heap op).1 = (step e s (match op with
+      | .req i o w _ => .req i o w | .clear => .clear | .set => .set)).1 := by
+  cases op with
+  | clear => rfl
+  | set => rfl
+  | req i o w wf =>
+    simp only [stepC, step]
+    cases getInstanceData e s i o w with
+    | error err => rfl
+    | ok r => rfl
+
+/-- **Transparency with results (the abstraction made explicit).**  The cache stores instance objects
+with contents of any type `α`; a request with wavefront `wf` returns `use (content of the instance
+handed out) wf` and may update that content in place.  If contents are `ObservablyPure`, then for every
+truthful element with `max_in_cache ≥ 1` every history of requests, `clear_cache()` and setters returns,
+request by request, what a freshly constructed element (empty cache, freshly made instance) returns. -/
+theorem transparent_results_from {α W R} {e : Elem} (hT : Truthful e) (hmax : 1 ≤ e.maxN)
+    (c : Content α W R) (Good : Key → Nat → α → Prop) (hc : ObservablyPure c Good)
+    (ops : List (OpC W)) :
+    ∀ (s : St) (heap : Inst → α), Inv e s → (∀ v, Good v.key v.ver (heap v)) →
+      runC e c s heap ops = specC e c s.ver ops := by
+  induction ops with
+  | nil => intro s heap _ _; rfl
+  | cons op ops ih =>
+    intro s heap hi hh
+    cases op with
+    | clear =>
+      simp only [runC, specC, stepC]
+      rw [ih _ _ (inv_clear e s) hh]
+      rfl
+    | set =>
+      simp only [runC, specC, stepC]
+      rw [ih _ _ (inv_setParam e s) hh]
+      rfl
+    | req i o w wf =>
+      have htr := request_transparent hT hmax hi i o w
+      obtain ⟨hi', hver⟩ := step_req_inv hT hmax hi (.req i o w)
+      simp only [runC, specC]
+      cases h : getInstanceData e s i o w with
+      | error err =>
+        rw [step_req_err h] at htr hi' hver
+        have h1 : stepC e c s heap (.req i o w wf) = (s, heap, .error err) := by
+          simp only [stepC]; rw [h]
+        rw [h1, ← htr]
+        simp only
+        rw [ih _ _ hi hh]
+      | ok r =>
+        obtain ⟨s', v⟩ := r
+        rw [step_req_ok h] at htr hi' hver
+        have h1 : stepC e c s heap (.req i o w wf) =
+            (s', (fun v' => if v' = v then (c.use (heap v) wf).1 else heap v'),
+              .result (c.use (heap v) wf).2) := by
+          simp only [stepC]; rw [h]
+        rw [h1, ← htr]
+        simp only
+        obtain ⟨hg, hr⟩ := hc.2 v.key v.ver (heap v) wf (hh v)
+        have hh' : ∀ v', Good v'.key v'.ver ((fun v' => if v' = v then (c.use (heap v) wf).1 else heap v') v') := by
+          intro v'
+          simp only
+          split
+          · rename_i hv; subst hv; exact hg
+          · exact hh v'
+        simp only at hver
+        rw [ih _ _ hi' hh', hr, hver]
+
+theorem transparent_results {α W R} {e : Elem} (hT : Truthful e) (hmax : 1 ≤ e.maxN)
+    (c : Content α W R) (Good : Key → Nat → α → Prop) (hc : ObservablyPure c Good) (ver : Nat)
+    (ops : List (OpC W)) :
+    runC e c (St.init ver) c.heap0 ops = specC e c ver ops :=
+  transparent_results_from hT hmax c Good hc ops _ _ (inv_init e ver) (fun v => hc.1 v.key v.ver)
+
+/-- **Transparency with results for instances that own a memo cell — no hypothesis on contents.**
+The cache composed with the memo-cell content (exactly what `C05 reqc` runs): every history of
+propagations with fields of any dtypes, `clear_cache()` and setters returns, request by request, the
+kernel a freshly constructed element computes for that request, whatever dtype the cell of a reused
+instance was left with. -/
+theorem transparent_results_memo {τ β : Type} [DecidableEq τ] {e : Elem} (hT : Truthful e)
+    (hmax : 1 ≤ e.maxN) (compute : Key → Nat → τ → β) (ver : Nat) (ops : List (OpC τ)) :
+    runC e (memoContent compute) (St.init ver) (memoContent compute).heap0 ops
+      = specC e (memoContent compute) ver ops :=
+  transparent_results hT hmax _ _ (memo_content_pure compute) ver ops
+
+/-- **`ObservablyPure` is needed**: an instance that keeps state it does not re-check (a memo cell
+without tag comparison: it answers every later wavefront with the value of the first) makes the very
+same, proved-transparent cache return a stale result. -/
+theorem content_hypothesis_needed :
+    let e : Elem := ⟨true, true, 11, fun _ _ g => some g, fun _ _ g => some g⟩
+    let c : Content (Option Nat) Nat Nat :=
+      ⟨fun _ _ => none, fun a wf => match a with | some v => (a, v) | none => (some wf, wf)⟩
+    let ops : List (OpC Nat) := [.req (some 1) none (some 5) 7, .req (some 1) none (some 5) 8]
+    runC e c (St.init 0) c.heap0 ops = [.result 7, .result 7] ∧
+    specC e c 0 ops = [.result 7, .result 8] := by
+  decide
+
+/-! ## `Truthful` is needed -/
+
+/-- **A `Truthful`-failing element is not transparent.**  A grid-dependent element declared wavelength
+*in*dependent whose `get_output_grid` nevertheless depends on the wavelength (output grid = wavelength
+key): a forward request on grid 1 at wavelength 5 creates the instance for `(1, 5)` and registers it
+under the request key `(1, -)`; the same grid at wavelength 6 hits that key and is handed the instance
+for output grid 5, while a fresh element builds the one for output grid 6.  No shipped class is of this
+kind (`truthful_of_declared_deps`). -/
+theorem truthful_needed :
+    let e : Elem := ⟨true, false, 11, fun _ _ g => some g, fun _ w _ => w⟩
+    ¬ Truthful e ∧
+    run e (St.init 0) [.req (some 1) none (some 5), .req (some 1) none (some 6)]
+      = [.inst ⟨some 1, some 5, none⟩ 0, .inst ⟨some 1, some 5, none⟩ 0] ∧
+    specRun e 0 [.req (some 1) none (some 5), .req (some 1) none (some 6)]
+      = [.inst ⟨some 1, some 5, none⟩ 0, .inst ⟨some 1, some 6, none⟩ 0] := by
+  refine ⟨?_, by decide, by decide⟩
+  intro hT
+  have := hT 0 (some 1) none (some 5) (some 1) none (some 6)
+  revert this
+  decide
+
+/-! ## The second cache: `make_agnostic_optical_element` (exported, deprecated) -/
+
+open HcipyVerif.Cache.Deco
+
+/-- The element of the counterexample: grid and wavelength dependent, `num_in_cache = 50` (the
+default), output grid of the element built on grid `a` = grid `a + 100`. -/
+def decoExample : DElem := ⟨true, true, 50, fun a _ => a + 100⟩
+
+/-- **`make_agnostic_optical_element` is history dependent** (open finding
+`history-dependent make_agnostic_optical_element backward-after-forward`; replayed on the real code by
+the harness): forward on grid 1, then backward on that element's output grid 101.  The shared object
+answers the backward request with the element built for grid 1; a freshly constructed one raises
+`RuntimeError('Output grid is not known. Perform a forward propagation first …')`. -/
+theorem decorator_counterexample :
+    drun decoExample DSt.init [⟨some 1, none, some 5⟩, ⟨none, some 101, some 5⟩]
+      = [.inst (some 1) (some 5), .inst (some 1) (some 5)] ∧
+    dspecRun decoExample [⟨some 1, none, some 5⟩, ⟨none, some 101, some 5⟩]
+      = [.inst (some 1) (some 5), .error .runtime] := by
+  decide
+
+/-- The negative statement: the analogue of `transparent` is false for the decorator's cache. -/
+theorem decorator_history_dependent :
+    ∃ (e : DElem) (ops : List DOp), 1 ≤ e.num ∧ drun e DSt.init ops ≠ dspecRun e ops :=
+  ⟨decoExample, [⟨some 1, none, some 5⟩, ⟨none, some 101, some 5⟩], by decide, by decide⟩
+
+/-- A freshly constructed decorated element never answers a request that names an output grid with an
+element: it raises (`RuntimeError`, or `ValueError` for an incomplete request). -/
+theorem decorator_fresh_backward_raises (e : DElem) (i : Option GridId) (b : GridId) (w : Option WlKey) :
+    (dstep e DSt.init ⟨i, some b, w⟩).2 = .error .value ∨
+    (dstep e DSt.init ⟨i, some b, w⟩).2 = .error .runtime := by
+  unfold dstep getInstance
+  cases dreqKey e i (some b) w with
+  | none => left; rfl
+  | some k => right; rfl
+
+/-- What the shared object answers to a backward request (grid dependent element): an exception, or an
+element that some earlier forward request built and whose output grid is the requested grid, at the
+requested wavelength — never an element for another output grid or wavelength. -/
+theorem decorator_backward_answer {e : DElem} (hg : e.gridDep = true) {s : DSt} (hs : DSound e s)
+    (b : GridId) (w : Option WlKey) :
+    (∃ err, (dstep e s ⟨none, some b, w⟩).2 = .error err) ∨
+    (∃ a, (dstep e s ⟨none, some b, w⟩).2 = .inst (some a) (if e.wlDep then w else none) ∧
+      e.outOf a (if e.wlDep then w else none) = b) := by
+  cases h : getInstance e s none (some b) w with
+  | error err => left; exact ⟨err, by rw [dstep_err (op := ⟨none, some b, w⟩) h]⟩
+  | ok r =>
+    obtain ⟨s', v⟩ := r
+    right
+    rw [dstep_ok (op := ⟨none, some b, w⟩) h]
+    obtain ⟨_, k, hk, hw, hgrid⟩ := getInstance_sound hs h
+    have hk' : k = ⟨some (Side.output, b), if e.wlDep then w else none⟩ := by
+      unfold dreqKey at hk
+      simp only [hg, Option.isNone_none, Option.isNone_some, Bool.true_and] at hk
+      split at hk
+      · rename_i h0; simp at h0
+      · split at hk
+        · cases hk
+        · simp at hk; exact hk.symm
+    subst hk'
+    simp only at hgrid hw
+    obtain ⟨a, ha, hout⟩ := hgrid
+    exact ⟨a, by rw [ha, hw], hout⟩
+
+/-- **Forward requests through the decorator are transparent**: for every history (any mixture of
+forward, backward and malformed requests, beyond any cache size, `num_in_cache ≥ 1`) the answers to the
+requests that name no output grid are those of freshly constructed elements. -/
+theorem decorator_forward_transparent {e : DElem} (hnum : 1 ≤ e.num) (ops : List DOp) :
+    ∀ s, DSound e s → forwardOnly ops (drun e s ops) = forwardOnly ops (dspecRun e ops) := by
+  induction ops with
+  | nil => intro s _; rfl
+  | cons op ops ih =>
+    intro s hs
+    have hs' := dstep_sound hs op
+    simp only [drun, dspecRun, List.map_cons, forwardOnly]
+    have ih' := ih _ hs'
+    simp only [dspecRun] at ih'
+    obtain ⟨i, o, w⟩ := op
+    cases o with
+    | some b => simpa using ih'
+    | none =>
+      simp only [Option.isNone_none, if_true]
+      rw [forward_answer hnum hs i w, forward_answer hnum (dsound_init e) i w, ih']
+
+example : ∃ e : DElem, 1 ≤ e.num ∧ DSound e DSt.init := ⟨decoExample, by decide, dsound_init _⟩
+
+/-- The size bound `2 * num_in_cache` is not kept either: when two input grids share an output grid the
+second registration overwrites the `('output', …)` entry in place, the length becomes odd, the test
+`len(cache) == 2 * num_in_cache` is stepped over and nothing is ever evicted again
+(`num_in_cache = 2`: 7 entries after four forward requests). -/
+theorem decorator_cache_exceeds_bound :
+    let e : DElem := ⟨true, true, 2, fun a _ => if a ≤ 2 then 100 else 100 + a⟩
+    let ops : List DOp := [⟨some 1, none, some 5⟩, ⟨some 2, none, some 5⟩, ⟨some 3, none, some 5⟩,
+      ⟨some 4, none, some 5⟩]
+    (ops.foldl (fun s op => (dstep e s op).1) DSt.init).cache.length = 7 := by
   decide
 
 end HcipyVerif.C05
